@@ -58,6 +58,10 @@ SinkDirectionality == (Done /\ n >= 2 /\ \A p \in att : p[1] # n) =>
       /\ Cred(af, s, {a}) = Cred(small, s, {a})
       /\ Skep(af, s, {a}) = Skep(small, s, {a})
 
+LiftTheorem == (Done /\ n >= 2 /\ \A p \in att : p[1] # n) =>
+   /\ LiftedFam(af, 1..(n - 1), "CO") = CO(af)
+   /\ LiftedFam(af, 1..(n - 1), "ST") = ST(af)
+
 MetaFast == Done => FastEqualsTextbook(af)
 
 Export == Done => PrintT(<<"REF", ToJson([n |-> n, att |-> SetToSeq(att)])>>)
